@@ -506,44 +506,56 @@ class TextXVisitor(RRELVisitor):
             if abstract and cls._tx_type != RULE_ABSTRACT:
                 cls._tx_type = RULE_ABSTRACT
                 has_change[0] = True
-                # Add inherited classes to this rule's meta-class
-                if rule.rule_name and cls.__name__ != rule.rule_name:
-                    if rule._tx_class not in cls._tx_inh_by:
-                        cls._tx_inh_by.append(rule._tx_class)
-                else:
-                    # Recursively append all referenced classes.
-                    def _add_reffered_classes(rule, inh_by, start=False):
-                        if rule.root and not start:
-                            _determine_rule_type(rule._tx_class)
-                            if rule._tx_class._tx_type != RULE_MATCH:
-                                if rule._tx_class not in inh_by:
-                                    inh_by.append(rule._tx_class)
-                                # stop after first added/found type
-                                return True
-                        else:
-                            is_ordered_choice = isinstance(rule, OrderedChoice)
-                            inh_added = False
-                            for r in rule.nodes:
-                                inh_added |= _add_reffered_classes(r, inh_by)
-                                if inh_added and not is_ordered_choice:
-                                    # If not ordered choice we should get out
-                                    # early as the rest of the rule shouldn't
-                                    # influence the inheritance hierarchy.
-                                    break
-                            return inh_added
-                        return False
+                new_abstract_classes.append(cls)
 
-                    _add_reffered_classes(rule, cls._tx_inh_by, start=True)
+        def _add_inherited_classes(cls):
+            """
+            Add inherited classes to the abstract rule's meta-class. Must be
+            called when all rule types are known.
+            """
+            rule = cls._tx_peg_rule
+            if rule.rule_name and cls.__name__ != rule.rule_name:
+                if rule._tx_class not in cls._tx_inh_by:
+                    cls._tx_inh_by.append(rule._tx_class)
+            else:
+                # Recursively append all referenced classes.
+                def _add_reffered_classes(rule, inh_by, start=False):
+                    if rule.root and not start:
+                        if rule._tx_class._tx_type != RULE_MATCH:
+                            if rule._tx_class not in inh_by:
+                                inh_by.append(rule._tx_class)
+                            # stop after first added/found type
+                            return True
+                    else:
+                        is_ordered_choice = isinstance(rule, OrderedChoice)
+                        inh_added = False
+                        for r in rule.nodes:
+                            inh_added |= _add_reffered_classes(r, inh_by)
+                            if inh_added and not is_ordered_choice:
+                                # If not ordered choice we should get out
+                                # early as the rest of the rule shouldn't
+                                # influence the inheritance hierarchy.
+                                break
+                        return inh_added
+                    return False
+
+                _add_reffered_classes(rule, cls._tx_inh_by, start=True)
 
         # Multi-pass rule type resolving to support circular rule references.
         # `has_change` is a list to support outer scope variable change in
         # Python 2.x
         has_change = [True]
+        new_abstract_classes = []
         while has_change[0]:
             has_change[0] = False
             resolved_classes = set()
             for cls in metamodel:
                 _determine_rule_type(cls)
+
+        # Inherited classes depend on the types of the referenced rules which
+        # are final only after the last pass.
+        for cls in new_abstract_classes:
+            _add_inherited_classes(cls)
 
     def _resolve_cls_refs(self, grammar_parser, model_parser):
         resolved_classes = {}
